@@ -109,8 +109,8 @@ func expectation(before []Res, patterns []string, schemaScope bool, sname string
 type viol struct{ Why, Key string }
 
 type exclResult struct {
-	Why, Key string // the first violation
-	All      []viol // one per distinct key
+	Why, Key string   // the first violation
+	All      []viol   // one per distinct key
 	Excluded []string // keys the reference says are excluded (self, not descendants)
 	Gone     int
 	Either   int
